@@ -4,7 +4,7 @@ import ast
 from ..cfg import witness
 from ..core import AnalysisError, u, walk_local, enclosing_stmt
 from ..lib import (construct, std_facts, def_of, facts_at, calls_of_node,
-                   returns_of, in_subtree, default_of, kwarg, format_sites)
+                   returns_of, in_subtree, default_of, kwarg, format_sites, expand_expr)
 from ..resolve import store_accesses
 from ..cfg import describe_path
 from .common import allowed_stores
@@ -88,10 +88,12 @@ def run(ctx):
   ctx.check(bool(inc) and all(passes(c, 1, 'skip_unknown') and u(c.args[0]) == 'statement.filename' for c in inc), 'C14.entry', construct(pc),
             'the include forwards skip_unknown', 'the include no longer forwards skip_unknown', pc.loc(), instance='forward:include')
   g2, facts2 = std_facts(prog, pc)
-  app = [n for n in g2.live_nodes() if any(u(c.func) == 'includes.append' for c in calls_of_node(n))]
   rets = [r for r in returns_of(pc) if r.value is not None]
-  ok = bool(app) and all(def_of(facts2[n.id], u(calls_of_node(n)[0].args[0])) is not None and 'parse_config_file(' in def_of(facts2[n.id], u(calls_of_node(n)[0].args[0])) for n in app) \
-      and any('includes' in u(r.value) and 'imports' in u(r.value) for r in rets)
+  # the first component of the returned pair, and what is appended to it
+  tree = u(rets[0].value.elts[0]) if rets and isinstance(rets[0].value, ast.Tuple) and rets[0].value.elts else 'includes'
+  app = [(n, c) for n in g2.live_nodes() for c in calls_of_node(n) if u(c.func) == tree + '.append' and c.args]
+  ok = bool(app) and all(any(isinstance(x, ast.Call) and prog.resolve_call(pc, x) == pf.qual for x in ast.walk(expand_expr(facts2[n.id], c.args[0])))
+                         for n, c in app) and any(tree in u(r.value) and 'imports' in u(r.value) for r in rets)
   ctx.check(ok, 'C14.inplace', construct(pc), 'each include\'s result is appended to the returned tree in order', 'include results are no longer collected into the returned tree', pc.loc(), instance='tree')
 
   # ---- C14.entry
